@@ -40,23 +40,6 @@ def behaviour(c, probes, ne, spec, codec):
     return out
 
 
-def add_components_of(draw, spec):
-    """Append CO ::= SEQUENCE { COMPONENTS OF X, extra-co BOOLEAN } for some SEQUENCE X."""
-    cands = [(m, n, t) for (m, n, t) in spec.top_types()
-             if t.kind == 'SEQUENCE' and t.tag is None and t.raw is None]
-    if not cands:
-        return
-    m, n, t = cands[draw(st.integers(0, len(cands) - 1))]
-    names = {x.name for x in t.root}
-    if 'extra-co' in names or 'CO' in dict(m.types):
-        return
-    members = [copy.deepcopy(x) for x in t.root] + [asn.Member('extra-co', asn.Ty('BOOLEAN'))]
-    ty = asn.Ty('SEQUENCE', root=members)
-    ty.raw = 'SEQUENCE {\n  COMPONENTS OF %s,\n  extra-co BOOLEAN\n}' % n
-    m.types.append(('CO', ty))
-    spec.link()
-
-
 class C13Machine(RuleBasedStateMachine):
     REC = None
     TIER = 'quick'
@@ -71,9 +54,8 @@ class C13Machine(RuleBasedStateMachine):
 
     @initialize(data=st.data())
     def setup(self, data):
-        prof = gen.Profile(max_types=4, max_depth=3, real_defaults=False)
+        prof = gen.Profile(max_types=4, max_depth=3, real_defaults=False, components_of_rate=40)
         spec = data.draw(gen.specs(prof))
-        add_components_of(data.draw, spec)
         self.spec = spec
         self.text = spec.text()
         try:
